@@ -324,6 +324,9 @@ impl Future for SystemController {
     fn poll(mut self: Pin<&mut Self>, cx: &mut Context<'_>) -> Poll<Self::Output> {
         // process all items currently buffered in channel
         loop {
+            #[cfg(actix_net_verif)]
+            crate::verif::point(crate::verif::Point::ControllerItem);
+
             match ready!(self.cmd_rx.poll_recv(cx)) {
                 // channel closed; no more messages can be received
                 None => return Poll::Ready(()),
